@@ -85,6 +85,32 @@ _mk("C19", "C19 (accounting structure only): masses are accumulated per element 
 _mk("C20", "C20: argument-role dataflow of the force-field cache (constructor roles, key pairs, both names in the key), readers' roles, partial molecules refused before typing, hydrogens added, dedicated error built from the partial dictionary with the molecule attached and re-raised, one parameter set per matched atom, typing and look-ups are read-only on the assigner (effect analysis), type ids injective and the look-up chain rule → type → id → parameters intact, None → bundled files shipped as package data. Element-consistent masses and numbering independence are NOT decided.",
     "argument-role dataflow through module variables, CFG dominance of guards, inter-procedural effect analysis, package-data census")
 
+# rules added in the second / third build round (DESIGN.md §9)
+EXTRA = {
+    "C01": " Added later: insertion conditions as a finite table over (elements so far x descriptors on the token); no child printed through str() / an f-string hole (type-aware); numbers written into notation text in full precision (R-PRINT-EXACT); the text window handed to the distribution readers.",
+    "C02": " Added later: token scanner order (pending text flushed before every atom and at the end, cursor drops exactly the consumed prefix: forward must-analysis), atom tables (organic subset + aromatic forms, Cl/Br, two letters first), loop-carried flags (A-FRESH).",
+    "C03": " Added later: the same object on both sides gets the verdict of an equal copy; id text analysed also through regular expressions (group quantifier) and rejected when it is a single character; no notation class customises copying (R-COPY-PLAIN).",
+    "C05": " Added later: token scanner order and atom tables (shared with C02).",
+    "C06": " Added later: insertion conditions (shared with C01), the inverted-terminal text, loop-carried flags, fully_generated as a stored flag must be refreshed after every change of the descriptor list.",
+    "C08": " Added later: every written unit is a candidate once per occurrence, in written order (R-UNITS-ALL).",
+    "C09": " Added later: text window of the distribution readers; ensemble loop exits (shared with C13).",
+    "C10": " Added later: no class customises copying; a field value shared by reference with the parsed object is never changed in place (R-SHARED-FIELD).",
+    "C11": " Added later: an interval argument is answered only by the difference of the family's cdf (no family-specific shortcut).",
+    "C12": " Added later: an estimate's inclusion never depends on the estimates already collected; 'known' means 'not None' in the system-mass setter (0 % is a percentage); full-precision printing (shared with C01).",
+    "C13": " Added later: the ensemble loop is left only through its test and an accumulated molecule is always yielded; meaning of generable / weight / fully_generated shared from C15 / C05 / C06.",
+    "C14": " Added later: the same rules for single-molecule generation; only picked components are generated.",
+    "C16": " Added later: the zero-total replacement applies to a zero total only (threshold <= 1e-12); a listed weight vector is emitted by one site as one probability kind; loop-carried flags.",
+    "C17": " Added later: multigraph with unkeyed insertions (parallel descriptor pairs kept), loop-carried flags with a typed path-feasibility fact, inverted-terminal text.",
+    "C18": " Added later: the static completion follows every entry (never-false loop tests recognised), helper picks receive self.rng, a new graph per generate().",
+    "C19": " Added later: per-step probabilities (list entry / list total; weight / sum of compatible weights; atom weight / sum over open atoms), the duplicate filter cannot merge states with different block masses, unique substructure matches, plain copies.",
+    "C20": " Added later: cache key compares the caller's own arguments, rule patterns reach RDKit verbatim, no class-level lookup tables, stored fully_generated flag.",
+}
+for _p, _t in EXTRA.items():
+    if _p in CHECKS:
+        CHECKS[_p]["text"] += _t
+for _p in CHECKS:
+    CHECKS[_p]["note"] += "; A-NORM (sa/normalise.py): rules see every module after inlining of trivial helpers, propagation of condition temporaries and canonical spelling of updates / text building / all()-any() / append loops"
+
 NOT_APPLICABLE = {}
 for _i in range(1, 21):
     _p = f"C{_i:02d}"
